@@ -217,3 +217,8 @@ Proof.
   intros off pre ch post Hpre. rewrite with_offsets_app, fold_line_count_nl by exact Hpre.
   apply in_or_app. right. cbn [with_offsets]. now left.
 Qed.
+
+(** The extractor recognised every shape in the completeness decision (regenerated obligation):
+    the model of [ends_with_line_continuation] has exactly the tests the code has. *)
+Lemma incomplete_shapes_recognised : incomplete_unrecognised = [].
+Proof. reflexivity. Qed.
